@@ -40,8 +40,10 @@ import (
 type ToolDef struct {
 	Name string `json:"name"`
 	Kind string `json:"kind"` // inv | str | both
-	Via  string `json:"via"`  // infer | new | raw
+	Via  string `json:"via"`  // infer | new | raw | inferopt   (raw and inferopt tools look at their tool options)
 }
+
+func (d ToolDef) sees() bool { return d.Via == "raw" || d.Via == "inferopt" }
 
 type Behav struct {
 	Chunks     []string `json:"chunks"`            // output = name + ":" + join(chunks); streamed as these chunks (first one prefixed)
@@ -51,6 +53,7 @@ type Behav struct {
 	Delay      int      `json:"delay,omitempty"`       // microseconds before the tool returns
 	ChunkDelay int      `json:"chunk_delay,omitempty"` // microseconds between chunks
 	Cap        int      `json:"cap,omitempty"`         // -1 = array-backed stream, otherwise Pipe capacity
+	Bare       bool     `json:"bare,omitempty"`        // output = join(chunks), no "<tag><name>:" prefix (the tool can answer "")
 }
 
 type Call struct {
@@ -65,6 +68,61 @@ type Case struct {
 	Handler string    `json:"handler"` // "" | ok | err
 	RoleOK  bool      `json:"role_ok"`
 	Calls   []Call    `json:"calls"`
+	// call options
+	CallTools *[]ToolDef `json:"call_tools,omitempty"` // WithToolList (nil = option absent; an empty list is passed as an empty non-nil slice)
+	ToolOpts  [][]string `json:"tool_opts,omitempty"`  // one WithToolOption per inner list; every entry is a tag option
+}
+
+// the tool list in force for the call
+func (c *Case) effTools() []ToolDef {
+	if c.CallTools != nil {
+		return *c.CallTools
+	}
+	return c.Tools
+}
+
+// what a tool that looks at its options sees
+func (c *Case) tag() string {
+	var b strings.Builder
+	for _, l := range c.ToolOpts {
+		for _, t := range l {
+			b.WriteString(t)
+		}
+	}
+	return b.String()
+}
+
+type tagOpt struct{ tag string }
+
+func withTag(s string) tool.Option {
+	return tool.WrapImplSpecificOptFn(func(o *tagOpt) { o.tag += s })
+}
+
+func tagOf(opts []tool.Option) string {
+	return tool.GetImplSpecificOptions(&tagOpt{}, opts...).tag
+}
+
+func (c *Case) nodeOptions(rc *recorder) ([]compose.ToolsNodeOption, error) {
+	var out []compose.ToolsNodeOption
+	if c.CallTools != nil {
+		tools := []tool.BaseTool{}
+		for _, d := range *c.CallTools {
+			t, err := buildTool(rc, d)
+			if err != nil {
+				return nil, err
+			}
+			tools = append(tools, t)
+		}
+		out = append(out, compose.WithToolList(tools...))
+	}
+	for _, l := range c.ToolOpts {
+		var os []tool.Option
+		for _, t := range l {
+			os = append(os, withTag(t))
+		}
+		out = append(out, compose.WithToolOption(os...))
+	}
+	return out, nil
 }
 
 func argsOf(k int) string { return fmt.Sprintf(`{"k":%d}`, k) }
@@ -85,6 +143,7 @@ type xcall struct {
 	Name string `json:"name"`
 	Args string `json:"args"`
 	ID   string `json:"id"`
+	Tag  string `json:"tag,omitempty"` // the tool options the execution was handed (as seen by a tool that looks)
 }
 
 // recorder of one run
@@ -99,8 +158,8 @@ type recorder struct {
 	nClosed   int // producers that saw their stream closed by the consumer
 }
 
-func (rc *recorder) begin(ctx context.Context, name, args string) xcall {
-	x := xcall{name, args, compose.GetToolCallID(ctx)}
+func (rc *recorder) begin(ctx context.Context, name, args, tag string) xcall {
+	x := xcall{name, args, compose.GetToolCallID(ctx), tag}
 	rc.mu.Lock()
 	rc.started = append(rc.started, x)
 	rc.mu.Unlock()
@@ -125,8 +184,22 @@ func (rc *recorder) behav(k int) (Behav, bool) {
 	return rc.c.Behavs[k], true
 }
 
-func (rc *recorder) invoke(ctx context.Context, name string, k int) (string, error) {
-	x := rc.begin(ctx, name, argsOf(k))
+func (b Behav) output(tag, name string) string {
+	if b.Bare {
+		return strings.Join(b.Chunks, "")
+	}
+	return tag + name + ":" + strings.Join(b.Chunks, "")
+}
+
+func (b Behav) outChunks(tag, name string) []string {
+	if b.Bare {
+		return append([]string{}, b.Chunks...)
+	}
+	return prefixFirst(tag+name, b.Chunks)
+}
+
+func (rc *recorder) invoke(ctx context.Context, name string, k int, tag string) (string, error) {
+	x := rc.begin(ctx, name, argsOf(k), tag)
 	defer rc.done(x)
 	b, ok := rc.behav(k)
 	if !ok {
@@ -139,7 +212,7 @@ func (rc *recorder) invoke(ctx context.Context, name string, k int) (string, err
 	if b.Fail != 0 {
 		return "", &toolErr{b.Fail}
 	}
-	return name + ":" + strings.Join(b.Chunks, ""), nil
+	return b.output(tag, name), nil
 }
 
 func prefixFirst(name string, cs []string) []string {
@@ -150,8 +223,8 @@ func prefixFirst(name string, cs []string) []string {
 	return out
 }
 
-func (rc *recorder) stream(ctx context.Context, name string, k int) (*schema.StreamReader[string], error) {
-	x := rc.begin(ctx, name, argsOf(k))
+func (rc *recorder) stream(ctx context.Context, name string, k int, tag string) (*schema.StreamReader[string], error) {
+	x := rc.begin(ctx, name, argsOf(k), tag)
 	defer rc.done(x)
 	b, ok := rc.behav(k)
 	if !ok {
@@ -164,7 +237,7 @@ func (rc *recorder) stream(ctx context.Context, name string, k int) (*schema.Str
 	if b.Fail != 0 && b.FailAt < 0 {
 		return nil, &toolErr{b.Fail}
 	}
-	chunks := prefixFirst(name, b.Chunks)
+	chunks := b.outChunks(tag, name)
 	var tail error
 	if b.Fail != 0 {
 		if b.FailAt < len(chunks) {
@@ -244,39 +317,39 @@ func (t *rawBase) parse(args string) (int, error) {
 
 type rawInv struct{ rawBase }
 
-func (t *rawInv) InvokableRun(ctx context.Context, args string, _ ...tool.Option) (string, error) {
+func (t *rawInv) InvokableRun(ctx context.Context, args string, opts ...tool.Option) (string, error) {
 	k, err := t.parse(args)
 	if err != nil {
 		return "", err
 	}
-	return t.rc.invoke(ctx, t.name, k)
+	return t.rc.invoke(ctx, t.name, k, tagOf(opts))
 }
 
 type rawStr struct{ rawBase }
 
-func (t *rawStr) StreamableRun(ctx context.Context, args string, _ ...tool.Option) (*schema.StreamReader[string], error) {
+func (t *rawStr) StreamableRun(ctx context.Context, args string, opts ...tool.Option) (*schema.StreamReader[string], error) {
 	k, err := t.parse(args)
 	if err != nil {
 		return nil, err
 	}
-	return t.rc.stream(ctx, t.name, k)
+	return t.rc.stream(ctx, t.name, k, tagOf(opts))
 }
 
 type rawBoth struct{ rawBase }
 
-func (t *rawBoth) InvokableRun(ctx context.Context, args string, _ ...tool.Option) (string, error) {
+func (t *rawBoth) InvokableRun(ctx context.Context, args string, opts ...tool.Option) (string, error) {
 	k, err := t.parse(args)
 	if err != nil {
 		return "", err
 	}
-	return t.rc.invoke(ctx, t.name, k)
+	return t.rc.invoke(ctx, t.name, k, tagOf(opts))
 }
-func (t *rawBoth) StreamableRun(ctx context.Context, args string, _ ...tool.Option) (*schema.StreamReader[string], error) {
+func (t *rawBoth) StreamableRun(ctx context.Context, args string, opts ...tool.Option) (*schema.StreamReader[string], error) {
 	k, err := t.parse(args)
 	if err != nil {
 		return nil, err
 	}
-	return t.rc.stream(ctx, t.name, k)
+	return t.rc.stream(ctx, t.name, k, tagOf(opts))
 }
 
 // a tool that is both, assembled from the two utils tools
@@ -295,18 +368,30 @@ func (t *utilBoth) StreamableRun(ctx context.Context, a string, o ...tool.Option
 
 func buildTool(rc *recorder, d ToolDef) (tool.BaseTool, error) {
 	name := d.Name
-	invFn := func(ctx context.Context, in argT) (string, error) { return rc.invoke(ctx, name, in.K) }
+	invFn := func(ctx context.Context, in argT) (string, error) { return rc.invoke(ctx, name, in.K, "") }
 	strFn := func(ctx context.Context, in argT) (*schema.StreamReader[string], error) {
-		return rc.stream(ctx, name, in.K)
+		return rc.stream(ctx, name, in.K, "")
+	}
+	invOptFn := func(ctx context.Context, in argT, opts ...tool.Option) (string, error) {
+		return rc.invoke(ctx, name, in.K, tagOf(opts))
+	}
+	strOptFn := func(ctx context.Context, in argT, opts ...tool.Option) (*schema.StreamReader[string], error) {
+		return rc.stream(ctx, name, in.K, tagOf(opts))
 	}
 	mk := utils.WithMarshalOutput(rawMarshal)
 	mkInv := func() (tool.InvokableTool, error) {
+		if d.Via == "inferopt" {
+			return utils.InferOptionableTool[argT, string](name, "inferred optionable "+name, invOptFn, mk)
+		}
 		if d.Via == "infer" {
 			return utils.InferTool[argT, string](name, "inferred "+name, invFn, mk)
 		}
 		return utils.NewTool[argT, string](&schema.ToolInfo{Name: name, Desc: "new " + name}, invFn, mk), nil
 	}
 	mkStr := func() (tool.StreamableTool, error) {
+		if d.Via == "inferopt" {
+			return utils.InferOptionableStreamTool[argT, string](name, "inferred optionable "+name, strOptFn, mk)
+		}
 		if d.Via == "infer" {
 			return utils.InferStreamTool[argT, string](name, "inferred "+name, strFn, mk)
 		}
@@ -355,13 +440,13 @@ func buildNode(rc *recorder) (*compose.ToolsNode, error) {
 	switch c.Handler {
 	case "ok":
 		conf.UnknownToolsHandler = func(ctx context.Context, name, input string) (string, error) {
-			x := rc.begin(ctx, name, input)
+			x := rc.begin(ctx, name, input, "")
 			defer rc.done(x)
 			return "unk:" + name + ":" + input, nil
 		}
 	case "err":
 		conf.UnknownToolsHandler = func(ctx context.Context, name, input string) (string, error) {
-			x := rc.begin(ctx, name, input)
+			x := rc.begin(ctx, name, input, "")
 			defer rc.done(x)
 			return "", &toolErr{handlerErrCode}
 		}
@@ -401,11 +486,12 @@ type RunObs struct {
 	Class  string  `json:"class"` // msgs | err | panic | chunks | hang | setup
 	Msgs   []*Msg  `json:"msgs,omitempty"`
 	Err    int     `json:"err,omitempty"`
+	ErrAs  bool    `json:"err_as,omitempty"` // the error (call error or the stream's error item) unwraps to the tool's own error value (errors.As)
 	ErrMsg string  `json:"err_msg,omitempty"`
 	Chunks []Chunk `json:"chunks,omitempty"`
-	Fin    *int    `json:"fin,omitempty"`    // stream ended with this error class (nil = EOF)
-	CCls   string  `json:"ccls,omitempty"`   // none | msgs | err : framework concatenation of the received chunks
-	CMsgs  []*Msg  `json:"cmsgs,omitempty"`  // (nil entry = nil message)
+	Fin    *int    `json:"fin,omitempty"`   // stream ended with this error class (nil = EOF)
+	CCls   string  `json:"ccls,omitempty"`  // none | msgs | err : framework concatenation of the received chunks
+	CMsgs  []*Msg  `json:"cmsgs,omitempty"` // (nil entry = nil message)
 	CErr   int     `json:"cerr,omitempty"`
 	Pi     []int   `json:"pi"`
 	Exec   []xcall `json:"exec"`
@@ -428,6 +514,11 @@ func classify(err error) int {
 		return n
 	}
 	return 0
+}
+
+func unwraps(err error) bool {
+	var te *toolErr
+	return errors.As(err, &te)
 }
 
 func short(s string) string {
@@ -471,7 +562,7 @@ func panicClass(p any) string {
 }
 
 // read a stream of sparse message lists to EOF or to the first error item
-func readChunks(sr *schema.StreamReader[[]*schema.Message], n int, sparse bool) (raw [][]*schema.Message, chunks []Chunk, fin *int, finMsg string) {
+func readChunks(sr *schema.StreamReader[[]*schema.Message], n int, sparse bool) (raw [][]*schema.Message, chunks []Chunk, fin *int, finMsg string, finAs bool) {
 	defer sr.Close()
 	for {
 		ms, err := sr.Recv()
@@ -480,7 +571,7 @@ func readChunks(sr *schema.StreamReader[[]*schema.Message], n int, sparse bool) 
 		}
 		if err != nil {
 			c := classify(err)
-			return raw, chunks, &c, short(err.Error())
+			return raw, chunks, &c, short(err.Error()), unwraps(err)
 		}
 		raw = append(raw, ms)
 		cnt := 0
@@ -548,12 +639,17 @@ func runOne(c *Case, mode, host string) (o RunObs) {
 	}
 	msg := c.message()
 	n := len(c.Calls)
+	nopts, err := c.nodeOptions(rc)
+	if err != nil {
+		o.Class, o.ErrMsg = "setup", short(err.Error())
+		return
+	}
 
 	var inv func() ([]*schema.Message, error)
 	var str func() (*schema.StreamReader[[]*schema.Message], error)
 	if host == "standalone" {
-		inv = func() ([]*schema.Message, error) { return tn.Invoke(ctx, msg) }
-		str = func() (*schema.StreamReader[[]*schema.Message], error) { return tn.Stream(ctx, msg) }
+		inv = func() ([]*schema.Message, error) { return tn.Invoke(ctx, msg, nopts...) }
+		str = func() (*schema.StreamReader[[]*schema.Message], error) { return tn.Stream(ctx, msg, nopts...) }
 	} else {
 		g := compose.NewGraph[*schema.Message, []*schema.Message]()
 		last := "tools"
@@ -581,8 +677,12 @@ func runOne(c *Case, mode, host string) (o RunObs) {
 			o.Class, o.ErrMsg = "setup", short(err.Error())
 			return
 		}
-		inv = func() ([]*schema.Message, error) { return r.Invoke(ctx, msg) }
-		str = func() (*schema.StreamReader[[]*schema.Message], error) { return r.Stream(ctx, msg) }
+		var gopts []compose.Option
+		if len(nopts) > 0 {
+			gopts = append(gopts, compose.WithToolsNodeOption(nopts...))
+		}
+		inv = func() ([]*schema.Message, error) { return r.Invoke(ctx, msg, gopts...) }
+		str = func() (*schema.StreamReader[[]*schema.Message], error) { return r.Stream(ctx, msg, gopts...) }
 	}
 
 	switch mode {
@@ -595,7 +695,7 @@ func runOne(c *Case, mode, host string) (o RunObs) {
 		case p != nil:
 			o.Class, o.ErrMsg = panicClass(p), short(fmt.Sprint(p))
 		case err != nil:
-			o.Class, o.Err, o.ErrMsg = "err", classify(err), short(err.Error())
+			o.Class, o.Err, o.ErrMsg, o.ErrAs = "err", classify(err), short(err.Error()), unwraps(err)
 		default:
 			o.Class, o.Msgs = "msgs", msgsOf(out)
 		}
@@ -605,7 +705,7 @@ func runOne(c *Case, mode, host string) (o RunObs) {
 		p, hung := guarded(func() {
 			sr, err = str()
 			if err == nil {
-				raw, o.Chunks, o.Fin, o.ErrMsg = readChunks(sr, n, mode == "stream")
+				raw, o.Chunks, o.Fin, o.ErrMsg, o.ErrAs = readChunks(sr, n, mode == "stream")
 			}
 		})
 		switch {
@@ -614,7 +714,7 @@ func runOne(c *Case, mode, host string) (o RunObs) {
 		case p != nil:
 			o.Class, o.ErrMsg = panicClass(p), short(fmt.Sprint(p))
 		case err != nil:
-			o.Class, o.Err, o.ErrMsg = "err", classify(err), short(err.Error())
+			o.Class, o.Err, o.ErrMsg, o.ErrAs = "err", classify(err), short(err.Error()), unwraps(err)
 		default:
 			o.Class = "chunks"
 			if o.Fin == nil {
@@ -660,7 +760,10 @@ func runOne(c *Case, mode, host string) (o RunObs) {
 		if a.Args != b.Args {
 			return a.Args < b.Args
 		}
-		return a.ID < b.ID
+		if a.ID != b.ID {
+			return a.ID < b.ID
+		}
+		return a.Tag < b.Tag
 	})
 	return
 }
@@ -709,7 +812,6 @@ func (in *interner) wrap(term string) string {
 	return b.String()
 }
 
-
 func coqMsg(m *Msg) string { return lib.CoqApp("M", S(m.Content), S(m.ID)) }
 
 func coqOptMsgs(ms []*Msg) string {
@@ -735,7 +837,7 @@ func coqNatList(xs []int) string {
 func coqExec(xs []xcall) string {
 	items := make([]string, len(xs))
 	for i, x := range xs {
-		items[i] = lib.CoqApp("X", S(x.Name), S(x.Args), S(x.ID))
+		items[i] = lib.CoqApp("X", S(x.Name), S(x.Args), S(x.ID), S(x.Tag))
 	}
 	return lib.CoqList(items)
 }
@@ -811,10 +913,21 @@ func (o *RunObs) coq() string {
 }
 
 func (c *Case) coq(runs []string) string {
-	tools := make([]string, len(c.Tools))
-	for i, t := range c.Tools {
-		k := map[string]string{"inv": "KInv", "str": "KStr", "both": "KBoth"}[t.Kind]
-		tools[i] = lib.CoqApp("T", S(t.Name), k)
+	tdefs := func(l []ToolDef) string {
+		items := make([]string, len(l))
+		for i, t := range l {
+			k := map[string]string{"inv": "KInv", "str": "KStr", "both": "KBoth"}[t.Kind]
+			items[i] = lib.CoqApp("T", S(t.Name), k, lib.CoqBool(t.sees()))
+		}
+		return lib.CoqList(items)
+	}
+	callTools := "None"
+	if c.CallTools != nil {
+		callTools = lib.CoqSome(tdefs(*c.CallTools))
+	}
+	var tags []string
+	for _, l := range c.ToolOpts {
+		tags = append(tags, l...)
 	}
 	tbl := make([]string, len(c.Behavs))
 	for i, b := range c.Behavs {
@@ -823,39 +936,45 @@ func (c *Case) coq(runs []string) string {
 			failat = lib.CoqSome(lib.CoqNat(b.FailAt))
 		}
 		tbl[i] = lib.CoqApp("B", S(argsOf(i)),
-			lib.CoqApp("mkB", sList(b.Chunks), lib.CoqN(uint64(b.Fail)), failat, lib.CoqBool(b.Panic)))
+			lib.CoqApp("mkB", sList(b.Chunks), lib.CoqN(uint64(b.Fail)), failat, lib.CoqBool(b.Panic), lib.CoqBool(b.Bare)))
 	}
 	h := map[string]string{"": "HNone", "ok": "HOk", "err": fmt.Sprintf("(HErr %d%%N)", handlerErrCode)}[c.Handler]
 	calls := make([]string, len(c.Calls))
 	for i, cl := range c.Calls {
 		calls[i] = lib.CoqApp("mkCall", S(cl.ID), S(cl.Name), S(argsOf(cl.K)))
 	}
-	return lib.CoqApp("mkCase", lib.CoqList(tools), lib.CoqList(tbl), h, lib.CoqBool(c.RoleOK),
+	return lib.CoqApp("mkCase", tdefs(c.Tools), callTools, sList(tags), lib.CoqList(tbl), h, lib.CoqBool(c.RoleOK),
 		lib.CoqList(calls), lib.CoqList(runs))
 }
 
 // ---------------------------------------------------------------- direct oracle (property text, in Go)
 
 type spec struct {
-	pre      bool   // the node must reject the message before running anything (role, no call, unknown without handler)
-	errs     []int  // error classes a failing call may legitimately report (any failing tool's error; 4 = panic)
-	panics   bool   // some called tool panics
-	msgs     []*Msg // the answer when nothing fails
-	inDomain bool   // stream = invoke is claimed (no called streamable execution without a chunk; "both" tools consistent)
+	pre      bool     // the node must reject the message before running anything (role, no call, unknown without handler)
+	errs     []int    // error classes of all failing calls (4 = panic)
+	panics   bool     // some called tool panics
+	msgs     []*Msg   // the answer when nothing fails
+	tags     []string // per call: the option tag its execution must be handed
+	inDomain bool     // stream = invoke is claimed (no called streamable execution without a chunk; "both" tools consistent)
+	first    int      // error class of the lowest-index call that fails when it is called (-1 = none): the call's error
+	firstIdx int
+	mid      []int // error classes delivered as error items of natively streamed executions
 }
 
-func (c *Case) kindOf(name string) string {
-	k := ""
-	for _, t := range c.Tools {
+// kind and option awareness of the tool a name resolves to in the tool list in force ("" = unknown)
+func (c *Case) lookup(name string) (kind string, sees bool) {
+	for _, t := range c.effTools() {
 		if t.Name == name {
-			k = t.Kind // the last one wins, as in a Go map
+			kind, sees = t.Kind, t.sees() // the last one wins, as in a Go map
 		}
 	}
-	return k
+	return
 }
 
+func (c *Case) kindOf(name string) string { k, _ := c.lookup(name); return k }
+
 func (c *Case) spec(streamed bool) spec {
-	s := spec{inDomain: true}
+	s := spec{inDomain: true, first: -1, firstIdx: -1}
 	if !c.RoleOK || len(c.Calls) == 0 {
 		s.pre = true
 		return s
@@ -866,26 +985,44 @@ func (c *Case) spec(streamed bool) spec {
 			return s
 		}
 	}
-	for _, cl := range c.Calls {
-		kind := c.kindOf(cl.Name)
+	callFails := func(i, code int) {
+		if s.first < 0 {
+			s.first, s.firstIdx = code, i
+		}
+	}
+	for i, cl := range c.Calls {
+		kind, sees := c.lookup(cl.Name)
 		if kind == "" {
 			if c.Handler == "err" {
 				s.errs = append(s.errs, handlerErrCode)
+				callFails(i, handlerErrCode)
 			}
 			s.msgs = append(s.msgs, &Msg{"unk:" + cl.Name + ":" + argsOf(cl.K), cl.ID})
+			s.tags = append(s.tags, "")
 			continue
+		}
+		tag := ""
+		if sees {
+			tag = c.tag()
 		}
 		b := c.Behavs[cl.K]
 		if b.Panic {
 			s.panics = true
 			s.errs = append(s.errs, 4)
+			callFails(i, 4)
 		} else if b.Fail != 0 {
 			s.errs = append(s.errs, b.Fail)
+			if streamed && kind != "inv" && b.FailAt >= 0 {
+				s.mid = append(s.mid, b.Fail) // the tool streams itself: the failure is an error item of its stream
+			} else {
+				callFails(i, b.Fail)
+			}
 		}
 		if len(b.Chunks) == 0 {
 			s.inDomain = false
 		}
-		s.msgs = append(s.msgs, &Msg{cl.Name + ":" + strings.Join(b.Chunks, ""), cl.ID})
+		s.msgs = append(s.msgs, &Msg{b.output(tag, cl.Name), cl.ID})
+		s.tags = append(s.tags, tag)
 	}
 	return s
 }
@@ -944,13 +1081,13 @@ func (c *Case) oracle(o *RunObs) (string, string) {
 	}
 	for _, x := range o.Exec {
 		found := false
-		for _, cl := range c.Calls {
-			if cl.Name == x.Name && argsOf(cl.K) == x.Args && cl.ID == x.ID {
+		for i, cl := range c.Calls {
+			if cl.Name == x.Name && argsOf(cl.K) == x.Args && cl.ID == x.ID && s.tags[i] == x.Tag {
 				found = true
 			}
 		}
 		if !found {
-			return fmt.Sprintf("%s: execution %v matches no call (name, arguments, call id in ctx)", tag, x), "exec-foreign"
+			return fmt.Sprintf("%s: execution %v matches no call (name, arguments, call id in ctx, tool options)", tag, x), "exec-foreign"
 		}
 	}
 	failing := s.pre || len(s.errs) > 0
@@ -965,6 +1102,15 @@ func (c *Case) oracle(o *RunObs) (string, string) {
 		if !s.pre && !has(s.errs, o.Err) {
 			return fmt.Sprintf("%s: failed with class %d which is no failing tool's error %v: %s", tag, o.Err, s.errs, o.ErrMsg), "wrong-error"
 		}
+		if !s.pre && s.first >= 0 && o.Err != s.first {
+			return fmt.Sprintf("%s: failed with class %d, but the first call (in call order) that fails is call %d with class %d: %s", tag, o.Err, s.firstIdx, s.first, o.ErrMsg), "error-not-of-first-failing-call"
+		}
+		if !s.pre && s.first < 0 && !has(s.mid, o.Err) {
+			return fmt.Sprintf("%s: the call failed with class %d although no call fails when called (error items: %v)", tag, o.Err, s.mid), "wrong-error"
+		}
+		if !s.pre && o.Err >= 100 && !o.ErrAs {
+			return fmt.Sprintf("%s: the error does not unwrap to the failing tool's error value (errors.As): %s", tag, o.ErrMsg), "tool-error-not-unwrappable"
+		}
 		return "", ""
 	case o.Class == "msgs":
 		if failing {
@@ -978,9 +1124,15 @@ func (c *Case) oracle(o *RunObs) (string, string) {
 		if s.pre {
 			return tag + ": a stream was returned although the message must be rejected", "missed-failure"
 		}
+		if s.first >= 0 {
+			return fmt.Sprintf("%s: a stream was returned although call %d fails when called (class %d)", tag, s.firstIdx, s.first), "missed-failure"
+		}
 		if o.Fin != nil {
-			if !has(s.errs, *o.Fin) {
-				return fmt.Sprintf("%s: stream ended with class %d which is no failing tool's error %v", tag, *o.Fin, s.errs), "wrong-error"
+			if !has(s.mid, *o.Fin) {
+				return fmt.Sprintf("%s: stream ended with class %d which is no streaming tool's error item %v", tag, *o.Fin, s.mid), "wrong-error"
+			}
+			if *o.Fin >= 100 && !o.ErrAs {
+				return fmt.Sprintf("%s: the stream's error item does not unwrap to the failing tool's error value (errors.As): %s", tag, o.ErrMsg), "tool-error-not-unwrappable"
 			}
 			return "", ""
 		}
@@ -1024,6 +1176,17 @@ func js(x any) string { b, _ := json.Marshal(x); return string(b) }
 // ---------------------------------------------------------------- generator
 
 var toolNames = []string{"ta", "tb", "tc", "td"}
+var vias = []string{"infer", "new", "raw", "inferopt"}
+var tagPool = []string{"<o1>", "<o2>", "<x>", ""}
+
+// another way of building a tool with the same attitude towards its options
+func sameSeesVia(r *lib.Rng, via string) string {
+	if via == "raw" || via == "inferopt" {
+		return r.Pick([]string{"raw", "inferopt"})
+	}
+	return r.Pick([]string{"infer", "new"})
+}
+
 var unknownNames = []string{"zz", "yy"}
 var chunkPool = []string{"a", "b", "", "xy", "q ", "0", "W", "hello", ""}
 
@@ -1031,17 +1194,46 @@ func genCase(r *lib.Rng, tier string) *Case {
 	maxCalls := 8
 	if tier == "thorough" {
 		maxCalls = 20
+	} else if r.Chance(1, 12) {
+		maxCalls = 14
 	}
 	c := &Case{RoleOK: true}
 	nt := r.Range(1, 4)
 	perm := r.Perm(len(toolNames))
 	for i := 0; i < nt; i++ {
-		c.Tools = append(c.Tools, ToolDef{toolNames[perm[i]], r.Pick([]string{"inv", "str", "both"}), r.Pick([]string{"infer", "new", "raw"})})
+		c.Tools = append(c.Tools, ToolDef{toolNames[perm[i]], r.Pick([]string{"inv", "str", "both"}), r.Pick(vias)})
 	}
-	if r.Chance(1, 20) { // the same name twice in the configuration (the later one wins)
+	if r.Chance(1, 20) {
+		// the same name twice in the configuration: same kind and same attitude towards options, built
+		// another way, so that the answer does not depend on which of the two the node picks (the
+		// property does not say; convTools keeps the later one)
 		d := c.Tools[r.Intn(len(c.Tools))]
-		d.Kind = r.Pick([]string{"inv", "str", "both"})
+		d.Via = sameSeesVia(r, d.Via)
 		c.Tools = append(c.Tools, d)
+	}
+	names := []string{}
+	for _, t := range c.Tools {
+		names = append(names, t.Name)
+	}
+	if r.Chance(1, 8) { // WithToolList: the call brings its own tool set
+		l := []ToolDef{}
+		if !r.Chance(1, 6) {
+			p2 := r.Perm(len(toolNames))
+			for i, m := 0, r.Range(1, 3); i < m; i++ {
+				l = append(l, ToolDef{toolNames[p2[i]], r.Pick([]string{"inv", "str", "both"}), r.Pick(vias)})
+				names = append(names, toolNames[p2[i]])
+			}
+		}
+		c.CallTools = &l
+	}
+	if r.Chance(1, 3) { // WithToolOption
+		for i, m := 0, r.Range(1, 2); i < m; i++ {
+			l := []string{}
+			for j, m2 := 0, r.Range(0, 2); j < m2; j++ {
+				l = append(l, r.Pick(tagPool))
+			}
+			c.ToolOpts = append(c.ToolOpts, l)
+		}
 	}
 	faults := r.Chance(1, 2)
 	zero := r.Chance(1, 25)
@@ -1054,6 +1246,14 @@ func genCase(r *lib.Rng, tier string) *Case {
 		}
 		if zero && r.Chance(1, 3) {
 			b.Chunks = []string{}
+		}
+		if r.Chance(1, 6) {
+			b.Bare = true
+			if r.Chance(1, 2) { // a tool that answers the empty string, in one or several empty chunks
+				for j := range b.Chunks {
+					b.Chunks[j] = ""
+				}
+			}
 		}
 		switch r.Intn(4) {
 		case 0:
@@ -1083,7 +1283,7 @@ func genCase(r *lib.Rng, tier string) *Case {
 	unknown := r.Chance(1, 6)
 	dupIDs := r.Chance(1, 15)
 	for i := 0; i < n; i++ {
-		cl := Call{ID: fmt.Sprintf("c%d", i), Name: c.Tools[r.Intn(len(c.Tools))].Name, K: r.Intn(nb)}
+		cl := Call{ID: fmt.Sprintf("c%d", i), Name: names[r.Intn(len(names))], K: r.Intn(nb)}
 		if unknown && r.Chance(1, 3) {
 			cl.Name = r.Pick(unknownNames)
 		}
@@ -1193,6 +1393,7 @@ func (engine) Run(ci any) lib.Result {
 	if zero > 0 {
 		res.Tags = append(res.Tags, "domain:zero-chunk-stream(outside)")
 	}
+	res.Tags = append(res.Tags, fmt.Sprintf("callopt:toollist:%v", c.CallTools != nil), fmt.Sprintf("callopt:tooloptions:%d", len(c.ToolOpts)))
 	if !c.RoleOK {
 		res.Tags = append(res.Tags, "malformed:role")
 	}
@@ -1251,7 +1452,6 @@ func (engine) Shrink(ci any, stillFails func(any) bool) any {
 	}
 	return &cur
 }
-
 
 // crash marker: if the implementation kills the process (an unrecovered panic on a goroutine
 // the harness cannot guard, a fatal runtime error), ./check finds fatal.json in the run
